@@ -224,7 +224,8 @@ func mangleCode(code string, m int) string {
 
 // codeFor computes (with the library, called directly) the code to submit.
 func codeFor(r *Req, now time.Time) string {
-	defer func() { _ = recover() }()
+	verifrt.ResetMeter(workCap)
+	defer func() { _ = recover(); verifrt.ResetMeter(0) }()
 	cs := r.Code
 	code := "000000"
 	switch r.Path {
@@ -288,13 +289,30 @@ func buildHTTP(method, path string, body []byte, closeHdr bool) []byte {
 }
 
 func guardedModel(method, path string, body []byte, now time.Time) (e expectation) {
+	// the model calls the library directly: on a tree where that call does
+	// unbounded work (or panics) there is no reference answer - bounded by the
+	// same statement meter, the request is then simply not judged by the model
+	verifrt.ResetMeter(workCap)
 	defer func() {
 		if p := recover(); p != nil {
 			e = expectation{}
 			verifh.Count("skip.model-call-panicked-or-tripped", 1)
 		}
+		verifrt.ResetMeter(0)
 	}()
 	return model(method, path, body, now)
+}
+
+func guardedCheck(check func([]byte, time.Time) string, body []byte) (msg string) {
+	verifrt.ResetMeter(workCap)
+	defer func() {
+		if p := recover(); p != nil {
+			msg = ""
+			verifh.Count("skip.model-call-panicked-or-tripped", 1)
+		}
+		verifrt.ResetMeter(0)
+	}()
+	return check(body, time.Now())
 }
 
 // prepare turns a Req into bytes + expectation at the current fake instant.
@@ -547,7 +565,7 @@ func (w *world) judge(cc *clientConn, s *sent, resp *response) {
 			return
 		}
 		verifh.Count("oracle.answers-compared-with-library", 1)
-		if msg := s.exp.Check(resp.body, time.Now()); msg != "" {
+		if msg := guardedCheck(s.exp.Check, resp.body); msg != "" {
 			w.fail(clause, ep, witness, fmt.Sprintf("%s %s body=%s -> %d %s: %s; model: %s", s.method, s.path, clipB(s.body, 300), resp.status, clipB(resp.body, 200), msg, s.exp.Desc))
 			return
 		}
